@@ -252,7 +252,7 @@ func runC02(c *ctx) {
 	}
 
 	// float64 -> F4 rounding
-	nround := c.pick(200000, 3000000)
+	nround := c.pick(600000, 3000000)
 	c.parallel(nround, func(i int, r *rng.R) {
 		var bits uint64
 		switch r.Intn(6) {
@@ -288,7 +288,7 @@ func runC02(c *ctx) {
 	})
 
 	// (c)+(d) generated trees
-	ntree := c.pick(30000, 600000)
+	ntree := c.pick(120000, 600000)
 	c.parallel(ntree, func(i int, r *rng.R) {
 		p := gen.Profile{MaxDepth: 1 + r.Intn(5), Boundary: true, Budget: 600}
 		if i%50 == 0 {
@@ -325,7 +325,7 @@ func runC02(c *ctx) {
 	}
 
 	// (e) messages, complete and incomplete
-	nmsg := c.pick(12000, 200000)
+	nmsg := c.pick(40000, 200000)
 	c.parallel(nmsg, func(i int, r *rng.R) {
 		g := gen.New(r, gen.Profile{MaxDepth: 3, Vars: i%2 == 0, Ellipsis: i%4 == 0, Budget: 200})
 		var it *ref.Item
